@@ -316,3 +316,20 @@ CHECKS["C19"] = {
     ],
     "floors": {"C19/random": {"signal": 0.4, "chan": 0.2, "goroutines_3": 0.3}},
 }
+
+CHECKS["C16"] = {
+    "pkg": "./migrate",
+    "level": "exploration",
+    "rule": ("mux: prefix length 0..8, 0..3 routes whose prefixes differ only in their last byte, 1..4 client connections (net.Pipe behind an in-memory base listener) whose first bytes match a route, match none, or are shorter than the prefix, "
+             "payload 0..200 bytes plus a marker, written in drawn splits of 1..9 bytes (so the prefix itself is split across writes), and a history of 1..12 events (Route registration, starting an Accept loop on a listener, a connection arriving, closing a "
+             "listener, cancelling Run's context, base Accept failing), each followed by quiescence. Oracle: every connection the base listener handed out is returned by exactly one Accept - the route registered for its prefix with the prefix consumed, "
+             "otherwise the default listener with the byte stream identical from byte 0 - or is closed, never both, never twice; a connection that arrived while an Accept was pending on its listener is delivered, not closed; after Run returned no Accept stays pending. "
+             "header: 1..3 goroutines writing 0..3 chunks each through a HeaderConn over a recording connection whose first or second underlying write can be held until everybody else is blocked; the wire must be the header once, first, followed by every payload byte exactly once, and each Write must return its own length. "
+             "Non-trivial: a connection was delivered with routes registered or with the prefix split across writes (mux); >= 2 writes (header)."),
+    "assumptions": ["events are sequenced with quiescence between them, so the set of live routes at the moment a connection arrives is known to the oracle; orders inside one event's burst are left to the Go scheduler"],
+    "subs": [
+        {"test": "TestC16Mux", "prop": "C16/mux", "quick": 20000, "thorough": 800000, "shards_quick": 16, "shards_thorough": 16},
+        {"test": "TestC16Header", "prop": "C16/header", "quick": 20000, "thorough": 400000, "shards_quick": 8, "shards_thorough": 16},
+    ],
+    "floors": {"C16/mux": {"delivered": 0.2, "prefix_split_across_writes": 0.1, "routes_registered": 0.3}, "C16/header": {"concurrent_writers": 0.4, "first_write_parked": 0.4}},
+}
